@@ -34,49 +34,16 @@ Example f1_window :
   /\ d_state (dk (run sc_commit h_f1)) = SWaiting.
 Proof. split; vm_compute; reflexivity. Qed.
 
-(* the set of states the run can never leave *)
-Definition stuck_f1 (s : st) : Prop :=
-  d_state (dk s) = SWaiting /\ d_full (dk s) = false /\ d_closed (dk s) = true
-  /\ d_con (dk s) 900 = Some 1%nat
-  /\ m_state (mm s) = SWaiting /\ (forall k, m_res (mm s) k = None)
-  /\ m_anchor (mm s) = false /\ m_sigs (mm s) = 0%nat /\ m_fin (mm s) = None
-  /\ (m_pc (mm s) = MIdle \/ exists r, m_pc (mm s) = MStep TChain r).
-
-Lemma stuck_f1_start : stuck_f1 (run sc_commit h_f1).
-Proof.
-  unfold stuck_f1. repeat split; try (vm_compute; reflexivity).
-  right. exists true. vm_compute. reflexivity.
-Qed.
-
-Lemma stuck_f1_step : forall s e, stuck_f1 s -> stuck_f1 (step sc_commit s e).
-Proof.
-  intros s e (Hds & Hf & Hcl & Hcon & Hms & Hres & Han & Hsig & Hfin & Hpc).
-  destruct e as [[|k| |]|]; simpl.
-  - (* arbitrator *)
-    unfold main_step. destruct Hpc as [Hpc|[r Hpc]]; rewrite Hpc.
-    + rewrite Hcl, Hsig. simpl.
-      unfold stuck_f1; repeat split; auto.
-    + rewrite Hms. unfold no_contracts. simpl. rewrite Hcon. simpl.
-      destruct r; unfold stuck_f1; simpl; repeat split; auto.
-      intros k. unfold relaunch.
-      destruct (find_spec sc_commit k) as [r0|] eqn:Ef; [|reflexivity].
-      apply find_spec_in in Ef. destruct Ef as [Hin Hk].
-      simpl in Hin. destruct Hin as [<-|[]]. simpl in Hk. subst k.
-      rewrite Hcon. reflexivity.
-  - unfold res_step. rewrite Hres. unfold stuck_f1; repeat split; auto.
-  - unfold anchor_step. rewrite Han. unfold stuck_f1; repeat split; auto.
-  - unfold fin_step. rewrite Hfin. unfold stuck_f1; repeat split; auto.
-  - (* one more restart does not help *)
-    unfold restart. rewrite Hf, Hcl, Hds. simpl.
-    unfold stuck_f1; simpl; repeat split; auto. right. exists true. reflexivity.
-Qed.
-
-Lemma stuck_f1_forever : forall h', stuck_f1 (run sc_commit (h_f1 ++ h')).
-Proof.
-  intros h'. induction h' using rev_ind.
-  - rewrite app_nil_r. apply stuck_f1_start.
-  - rewrite app_assoc, run_snoc. apply stuck_f1_step. exact IHh'.
-Qed.
+(* since commit 2099ea4 the window is recovered: after the restart the
+   reloaded (resolved) contract is removed from the log, the arbitrator is
+   signalled and the channel is marked resolved with the uninterrupted
+   outcome *)
+Example f1_recovered :
+  let s := run sc_commit (h_f1 ++ rr sc_commit 30) in
+  terminal s = true
+  /\ seteq out_eqb (outs s) (outs (run sc_commit (rr sc_commit 30))) = true
+  /\ seteq pair_eqb (d_rep (dk s)) (d_rep (dk (run sc_commit (rr sc_commit 30)))) = true.
+Proof. repeat split; vm_compute; reflexivity. Qed.
 
 (* ---- F2: remote (pending) close, dust fail-back + dangling htlc ---- *)
 Definition sc_dust : scen :=
